@@ -3,7 +3,7 @@
    Request = opcode :: length-prefixed strings. *)
 From Coq Require Import List NArith Bool Arith.
 Import ListNotations.
-From PV Require Import Regex Base UnicodeTables LexTables PyRepr Lexer AstDefs AstSpec AstImpl NodeModel ParserTables ParserBase ParserDecl ParserMain.
+From PV Require Import Regex Base UnicodeTables LexTables PyRepr Lexer AstDefs AstSpec AstImpl NodeModel ParserTables ParserBase ParserDecl ParserMain ClimbProofs.
 Open Scope N_scope.
 
 Definition US : N := 31.  (* field separator *)
@@ -220,12 +220,41 @@ Definition api_parse (req: list N) : str :=
   | _ => s2l "BADREQ"
   end.
 
+(* ---- abstract precedence climbing (C02 component), operators given by kind index ----- *)
+Definition prec_tbl (k: kind) : nat := match prec_of k with Some p => p | None => 0%nat end.
+
+Fixpoint show_tree (t: tree nat kind) : str :=
+  match t with
+  | Leaf _ _ a => 97 :: dec_of_N (N.of_nat a)
+  | Bin _ _ o l r => [40] ++ kind_name o ++ [32] ++ show_tree l ++ [32] ++ show_tree r ++ [41]
+  end.
+
+Fixpoint ops_to_rest (i: nat) (l: list N) : option (list (kind * nat)) :=
+  match l with
+  | [] => Some []
+  | x :: r => match nth_error all_kinds (N.to_nat x), ops_to_rest (S i) r with
+              | Some k, Some rr => Some ((k, i) :: rr)
+              | _, _ => None
+              end
+  end.
+
+Definition api_climb (req: list N) : str :=
+  match ops_to_rest 1 req with
+  | Some r =>
+    match climb nat kind prec_tbl (2 * length r + 2) 0 (Leaf nat kind 0%nat) r with
+    | Some (t, []) => show_tree t
+    | _ => s2l "ERR"
+    end
+  | None => s2l "BADREQ"
+  end.
+
 Definition handle (req: list N) : str :=
   match req with
   | 1 :: r => api_lex r
   | 2 :: r => api_master r
   | 3 :: r => api_repr r
   | 20 :: r => api_parse r
+  | 30 :: r => api_climb r
   | 10 :: r => api_children r
   | 11 :: r => api_iter r
   | 12 :: r => api_show r
